@@ -14,6 +14,7 @@ import PyImpSpec.Columns
 import PyImpSpec.KKTau
 import PyImpSpec.KKAuto
 import PyImpSpec.Fit
+import PyImpSpec.Drt
 
 /-! Line-protocol driver: one request per line (`<model> <op> <args…>`), one canonical reply per line.
 Run with `lake env lean --run Driver/Main.lean`.  The harness sends the same inputs to the real
@@ -189,6 +190,8 @@ def kercReply (name : String) (binds : List String) : String :=
     ("fit_err_re", Gen.K.fit_err_re), ("fit_err_im", Gen.K.fit_err_im), ("fit_w_unity_re", Gen.K.fit_w_unity_re), ("fit_w_unity_im", Gen.K.fit_w_unity_im),
     ("fit_w_modulus_re", Gen.K.fit_w_modulus_re), ("fit_w_modulus_im", Gen.K.fit_w_modulus_im), ("fit_w_proportional_re", Gen.K.fit_w_proportional_re),
     ("fit_w_proportional_im", Gen.K.fit_w_proportional_im), ("fit_w_boukamp_re", Gen.K.fit_w_boukamp_re), ("fit_w_boukamp_im", Gen.K.fit_w_boukamp_im),
+    ("trnnls_A_re", Gen.K.trnnls_A_re), ("trnnls_A_im", Gen.K.trnnls_A_im), ("lm_tau", Gen.K.lm_tau), ("lm_gamma", Gen.K.lm_gamma),
+    ("mrq_gamma_rc", Gen.K.mrq_gamma_rc), ("mrq_gamma_rq", Gen.K.mrq_gamma_rq), ("mrq_tau0", Gen.K.mrq_tau0),
     ("est_pct_noise", Gen.K.est_pct_noise), ("est_pseudo_chisqr", Gen.K.est_pseudo_chisqr), ("noise_sd", Gen.K.noise_sd)]
   match tbl.find? (·.1 = name) with
   | none => "err no-kernel"
@@ -543,6 +546,10 @@ def step (st : DState) (line : String) : DState × String :=
   | "tlm" :: which :: a :: b :: c :: d :: e :: binds => (st, tlmReply which [a, b, c, d, e] binds)
   | ["tau", wmin, wmax, fext, n, k] => (st, s!"ok {(KKTau.tau KKTau.floatOps (parseFloat wmin) (parseFloat wmax) (parseFloat fext) n.toNat! k.toNat!).toBits}")
   | "kerc" :: name :: binds => (st, kercReply name binds)
+  | "dlt" :: xs =>
+    (st, match Drt.deltas (0.5 : Float) (xs.map parseFloat) with
+      | some d => "ok " ++ " ".intercalate (d.map fun x => toString x.toBits)
+      | none => "err IndexError")
   | "lim" :: a => (st, limReply a)
   | "fit" :: a => (st, fitReply a)
   | "pick" :: a => (st, pickReply a)
